@@ -2,6 +2,7 @@ package props
 
 import (
 	"go/token"
+	"strings"
 
 	"golang.org/x/tools/go/ssa"
 
@@ -13,6 +14,8 @@ func init() { register("C17", checkC17) }
 
 func checkC17(p *load.Program, r *kit.Report) {
 	importRules(p, r, "C09", "after the marked header was trimmed the header files still hold it and its descendants until the next save: range queries must not read above the tip", 3, nil, "TIP-BOUND")
+	importRules(p, r, "C10", "Branches.Trim finds the descendants of a trimmed branch by the identity of their parent pointers: Clean must re-attach every branch to the rebuilt branch objects, or a descendant of the marked header survives the trim and can become the best chain", 1,
+		func(o *kit.Obligation) bool { return strings.HasPrefix(o.Construct, "consolidate/") }, "COVER-ALL")
 	r.NotDecided = "fallback to the heaviest remaining chain and exclusion of descendants as behaviour over histories; HashHeight still answering with the old height for trimmed headers (the long-lived map never shrinks)."
 	r.Rule("FLAG-RULE", "a trimmed header stays in the long-lived height map: CheckHeader/GetHeader report `in most-work chain` only after comparing the hash with the most-work chain's header at that height, never from map membership", 4)
 	checkFlagRule(p, r)
